@@ -4,6 +4,7 @@ import (
 	"context"
 	"errors"
 	"fmt"
+	"io"
 	"net/http"
 	"net/http/httptest"
 	"path"
@@ -377,13 +378,17 @@ func restRespond(c *callRec, rw http.ResponseWriter) {
 		case 3:
 			write(http.StatusOK, true)
 		}
-		panic(c.panicVal)
+		c.raise()
 	}
 }
 
 // rpcResult is what the wrapped gRPC handler / invoker returns.
 func (l *layer2) rpcResult(c *callRec, ctx context.Context) error {
 	p := c.p
+	if e, ok := l.rpcRichErr(c); ok {
+		c.l2err = e
+		return e
+	}
 	switch p.outcome {
 	case outOK:
 		return nil
@@ -415,9 +420,64 @@ func (l *layer2) rpcResult(c *callRec, ctx context.Context) error {
 			c.wantUnavailable = true
 		}
 	case outPanic:
-		panic(c.panicVal)
+		c.raise()
 	}
 	return c.l2err
+}
+
+// rpcRichErr: for plan.kind > 0 the handler / invoker returns one of the less ordinary error
+// identities, classified by what the interceptors document: the gRPC code of the error as
+// status.Code reports it (the code of a wrapped status error is the code of the status; every
+// error without a status has code Unknown and is accepted), and on the server side
+// context.DeadlineExceeded and breaker.ErrServiceUnavailable - bare or wrapped - are failures.
+func (l *layer2) rpcRichErr(c *callRec) (error, bool) {
+	p := c.p
+	server := l.kind == wrapRPCServer
+	var e error
+	switch p.outcome {
+	case outAccErr:
+		switch p.kind {
+		case 1:
+			e = io.EOF
+		case 2:
+			e = errors.New(breaker.ErrServiceUnavailable.Error()) // same text, another error
+		case 3:
+			e = fmt.Errorf("lookup of call %d: %w", c.id, status.Error(rpcAccCodes[p.variant%len(rpcAccCodes)], "business error"))
+		case 4:
+			e = fmt.Errorf("handler of call %d: %w", c.id, context.Canceled)
+		case 5:
+			e = codeErr{id: c.id, code: 1040}
+		case 6:
+			if !server { // a nested breaker below the invoker was open: an error without a gRPC status
+				e = breaker.ErrServiceUnavailable
+			}
+		case 7:
+			if !server {
+				e = fmt.Errorf("downstream of call %d: %w", c.id, breaker.ErrServiceUnavailable)
+			}
+		case 8:
+			e = errors.New(context.DeadlineExceeded.Error()) // same text, another error
+		}
+	case outErr:
+		switch p.kind {
+		case 1:
+			e = fmt.Errorf("backend of call %d: %w", c.id, status.Error(rpcFailCodes[p.variant%len(rpcFailCodes)], "backend error"))
+		case 2:
+			if server {
+				e = fmt.Errorf("downstream of call %d: %w", c.id, breaker.ErrServiceUnavailable)
+				c.wantUnavailable = true
+			}
+		case 3:
+			if server {
+				e = errors.Join(io.EOF, fmt.Errorf("replica of call %d: %w", c.id, context.DeadlineExceeded))
+			}
+		}
+	}
+	if e == nil {
+		return nil, false
+	}
+	l.r.Probe("rpc-rich-error-identity")
+	return e, true
 }
 
 func mkCtx(p *plan) (context.Context, context.CancelFunc) {
@@ -444,7 +504,10 @@ func (l *layer2) call(p *plan) *callRec {
 	w := id.w
 	c := &callRec{id: len(w.calls), p: p}
 	c.reqErr = &callErr{id: c.id, acceptable: p.outcome == outAccErr}
-	c.panicVal = &callPanic{id: c.id}
+	c.setPanic(p.kind)
+	if p.outcome == outPanic {
+		r.Probe("l2-panic-value-" + panicKindNames[c.panicKind])
+	}
 	w.calls = append(w.calls, c)
 
 	ctx, cancel := mkCtx(p)
@@ -575,8 +638,8 @@ func (l *layer2) passThrough(c *callRec) (bool, string) {
 			}
 			return true, ""
 		}
-		if c.gotErr != c.l2err {
-			return false, fmt.Sprintf("handler returned %v, the interceptor %v", c.l2err, c.gotErr)
+		if !same(c.gotErr, c.l2err) {
+			return false, fmt.Sprintf("handler returned %T(%v), the interceptor %T(%v)", c.l2err, c.l2err, c.gotErr, c.gotErr)
 		}
 		return true, ""
 	case wrapRedis:
@@ -607,7 +670,7 @@ func (l *layer2) classify(id *ident, c *callRec, ctx context.Context, doneAtInv,
 	case doneAtInv && l.ctxAware(p) && (c.reqRuns > 0 || c.gotErr != ctx.Err()):
 		r.Fail("done-context-not-short-circuited", "call %d (%s) with an already done context: handler runs=%d returned %v, want %v and nothing run",
 			c.id, name, c.reqRuns, c.gotErr, ctx.Err())
-	case c.reqRuns == 1 && l.kind == wrapSQL && errors.Is(c.gotErr, breaker.ErrServiceUnavailable):
+	case c.reqRuns == 1 && l.kind == wrapSQL && errors.Is(c.gotErr, breaker.ErrServiceUnavailable) && !sqlEndedUnavailable(c):
 		x := c.x.(*sqlObs)
 		r.Fail("rejected-but-ran", "call %d (%s) was rejected by the breaker (%v), yet %d driver calls (%d of them connection attempts) were made on its behalf: a rejected call must not reach the database",
 			c.id, name, c.gotErr, x.drvCalls, x.opens)
@@ -615,8 +678,8 @@ func (l *layer2) classify(id *ident, c *callRec, ctx context.Context, doneAtInv,
 		c.class = clAdmitted
 		w.nAdmitted++
 		if p.outcome == outPanic {
-			if !c.panicked || c.gotPanic != any(c.panicVal) {
-				r.Fail("panic-not-reraised", "call %d (%s): handler panicked with %p, call ended with panicked=%v value=%v", c.id, name, c.panicVal, c.panicked, c.gotPanic)
+			if !c.panicked || !c.samePanic(c.gotPanic) {
+				r.Fail("panic-not-reraised", "call %d (%s): handler panicked with %v (%s), call ended with panicked=%v value=%T(%v)", c.id, name, c.panicVal, panicKindNames[c.panicKind], c.panicked, c.gotPanic, c.gotPanic)
 				return
 			}
 			r.Probe("panic-reraised")
@@ -705,7 +768,8 @@ func bodyLayer2(r *simrt.Run, tier string) {
 		}
 		focus := ph.kind != phMixed // these phases build one identity's history
 		ph.variant = t.Intn(12)
-		if ph.kind == phSustained && l.kind == wrapREST && t.Intn(4) == 3 {
+		ph.valKind = t.Intn(nKinds)
+		if ph.kind == phSustained && l.kind == wrapREST && t.Intn(3) == 2 {
 			ph.panicsOnly = true
 		}
 		if ph.kind == phSustained && l.kind == wrapSQL && t.Intn(2) == 1 {
@@ -727,6 +791,7 @@ func bodyLayer2(r *simrt.Run, tier string) {
 					if p.outcome != outPanic || l.kind == wrapREST {
 						p.outcome, p.variant = outErr, ph.variant
 					}
+					p.kind = ph.valKind // one error identity / one panic value, too
 					if l.kind == wrapRedis && p.outcome == outErr {
 						p.variant = ph.variant % 2 // failures without retries and back-off: the phase stays dense
 					}
@@ -748,7 +813,7 @@ func bodyLayer2(r *simrt.Run, tier string) {
 			n += len(out)
 		}
 		total += n
-		descr = append(descr, fmt.Sprintf("%s(gap=%v clients=%d calls=%d fail%%=%d think-profile=%d focus-identity=%d failure-kind=%d panics-only=%v backend-unreachable=%v)", phaseNames[ph.kind], ph.gap, len(ph.plans), n, ph.failPct, ph.profile, ph.ident, ph.variant, ph.panicsOnly, ph.outage))
+		descr = append(descr, fmt.Sprintf("%s(gap=%v clients=%d calls=%d fail%%=%d think-profile=%d focus-identity=%d failure-kind=%d/%d panics-only=%v backend-unreachable=%v)", phaseNames[ph.kind], ph.gap, len(ph.plans), n, ph.failPct, ph.profile, ph.ident, ph.variant, ph.valKind, ph.panicsOnly, ph.outage))
 	}
 	var idd []string
 	for _, id := range l.ids {
